@@ -1073,9 +1073,15 @@ def source_shape(g, LIB, RNG):
         bad.append('[version-grammar] MAX_LENGTH is not 256')
     if not re.search(r'impl (?:std::str::|str::)?FromStr for Version \{\s*type Err = SemverError;\s*fn from_str\(s: &str\) -> Result<Self, Self::Err> \{\s*Version::parse\(s\)\s*\}\s*\}', lib):
         bad.append('[version-grammar] `FromStr for Version` is not `Version::parse(s)`')
+
+    # S9 (C12): the serde impls of Version delegate to Display / parse and nothing else
+    if not re.search(r"impl Serialize for Version \{\s*fn serialize<S: Serializer>\(&self, s: S\) -> Result<S::Ok, S::Error> \{\s*s\.collect_str\(self\)\s*\}\s*\}", lib):
+        bad.append('[version-serde] `Serialize for Version` is not `s.collect_str(self)`')
+    if not re.search(r"impl<'de> Deserialize<'de> for Version \{\s*fn deserialize<D: Deserializer<'de>>\(d: D\) -> Result<Self, D::Error> \{\s*let s = String::deserialize\(d\)\?;\s*s\.parse\(\)\.map_err\(serde::de::Error::custom\)\s*\}\s*\}", lib):
+        bad.append('[version-serde] `Deserialize for Version` is not `String::deserialize(d)?` + `s.parse().map_err(serde::de::Error::custom)`')
     for b in bad:
         # a deviation that can only concern the range layer leaves the properties about versions alone
-        g.lost_items.append(('source-shape:range' if b.startswith('[range]') else ('source-shape:version-grammar' if b.startswith('[version-grammar]') else 'source-shape'), b))
+        g.lost_items.append(('source-shape:range' if b.startswith('[range]') else ('source-shape:version-grammar' if b.startswith('[version-grammar]') else ('source-shape:version-serde' if b.startswith('[version-serde]') else 'source-shape')), b))
     return bad
 
 
